@@ -86,16 +86,9 @@ theorem satKVsB_iff (w : Bool) : ∀ (kvs : KVs) (s : Sch), satKVsB w kvs s = tr
 end
 
 
-theorem woViol_eq_woPresent : ∀ (ps : Props) (kvs : KVs), woNullHere ps kvs = false → woViol ps kvs = woPresent ps kvs
-  | .nil, kvs, _ => by simp [woViol, woPresent]
-  | .cons k p r, kvs, h => by
-    simp only [woNullHere, Bool.or_eq_false_iff] at h
-    simp only [woViol, woPresent, woViol_eq_woPresent r kvs h.2]
-    congr 1
-    cases hw : p.core.writeOnly <;> simp
-    cases hg : kvs.get k with
-    | none => simp
-    | some v => simp [hw, hg] at h; simp [h.1]
+theorem woViol_eq_woPresent : ∀ (ps : Props) (kvs : KVs), woViol ps kvs = woPresent ps kvs
+  | .nil, kvs => by simp [woViol, woPresent]
+  | .cons k p r, kvs => by simp only [woViol, woPresent, woViol_eq_woPresent r kvs]
 
 theorem reqOK_asrep (w : Bool) (ps : Props) (kvs : KVs) (ks : List String) :
     reqOK ⟨true, w⟩ ps kvs ks = reqSpecB ps kvs ks := by
@@ -104,55 +97,35 @@ theorem reqOK_asrep (w : Bool) (ps : Props) (kvs : KVs) (ks : List String) :
   | cons k ks ih => simp [reqOK, reqSpecB, ih]
 
 mutual
-theorem visit_asrep_eq_satRepB (w : Bool) : ∀ (v : J) (s : Sch),
-    (w = true ∨ woNullIn v s = false) → visit ⟨true, w⟩ v s = satRepB w v s
-  | .null, s, _ => by simp [visit, satRepB]
-  | .bool _, s, _ => by simp [visit, satRepB]
-  | .num n, s, _ => by simp [visit, satRepB]
-  | .str t, s, _ => by simp [visit, satRepB]
-  | .arr xs, s, h => by
+theorem visit_asrep_eq_satRepB (w : Bool) : ∀ (v : J) (s : Sch), visit ⟨true, w⟩ v s = satRepB w v s
+  | .null, s => by simp [visit, satRepB]
+  | .bool _, s => by simp [visit, satRepB]
+  | .num n, s => by simp [visit, satRepB]
+  | .str t, s => by simp [visit, satRepB]
+  | .arr xs, s => by
     simp only [visit, satRepB]
     cases hi : s.items with
     | none => rfl
-    | some it =>
-      simp only [woNullIn, hi] at h
-      simp only [visitItems_asrep_eq w xs it h]
-  | .obj kvs, s, h => by
-    simp only [visit, satRepB, reqOK_asrep]
-    simp only [woNullIn, Bool.or_eq_false_iff] at h
-    have hk : visitKVs ⟨true, w⟩ kvs s = satKVsB w kvs s :=
-      visitKVs_asrep_eq w kvs s (h.elim Or.inl (fun h => Or.inr h.2))
-    rw [hk]
-    rcases h with h | h
-    · subst h; simp
-    · rw [woViol_eq_woPresent _ _ h.1]; cases w <;> simp
-theorem visitItems_asrep_eq (w : Bool) : ∀ (xs : JL) (it : Sch),
-    (w = true ∨ woNullItems xs it = false) → visitItems ⟨true, w⟩ xs it = satItemsB w xs it
-  | .nil, it, _ => by simp [visitItems, satItemsB]
-  | .cons x r, it, h => by
-    simp only [woNullItems, Bool.or_eq_false_iff] at h
-    simp only [visitItems, satItemsB,
-      visit_asrep_eq_satRepB w x it (h.elim Or.inl (fun h => Or.inr h.1)),
-      visitItems_asrep_eq w r it (h.elim Or.inl (fun h => Or.inr h.2))]
-theorem visitKVs_asrep_eq (w : Bool) : ∀ (kvs : KVs) (s : Sch),
-    (w = true ∨ woNullKVs kvs s = false) → visitKVs ⟨true, w⟩ kvs s = satKVsB w kvs s
-  | .nil, s, _ => by simp [visitKVs, satKVsB]
-  | .cons k v r, s, h => by
-    simp only [woNullKVs, Bool.or_eq_false_iff] at h
-    simp only [visitKVs, satKVsB, visitKVs_asrep_eq w r s (h.elim Or.inl (fun h => Or.inr h.2))]
+    | some it => simp only [visitItems_asrep_eq w xs it]
+  | .obj kvs, s => by
+    simp only [visit, satRepB, reqOK_asrep, visitKVs_asrep_eq w kvs s, woViol_eq_woPresent]
+    cases w <;> simp
+theorem visitItems_asrep_eq (w : Bool) : ∀ (xs : JL) (it : Sch), visitItems ⟨true, w⟩ xs it = satItemsB w xs it
+  | .nil, it => by simp [visitItems, satItemsB]
+  | .cons x r, it => by
+    simp only [visitItems, satItemsB, visit_asrep_eq_satRepB w x it, visitItems_asrep_eq w r it]
+theorem visitKVs_asrep_eq (w : Bool) : ∀ (kvs : KVs) (s : Sch), visitKVs ⟨true, w⟩ kvs s = satKVsB w kvs s
+  | .nil, s => by simp [visitKVs, satKVsB]
+  | .cons k v r, s => by
+    simp only [visitKVs, satKVsB, visitKVs_asrep_eq w r s]
     congr 1
     cases hl : s.props.lookup k with
-    | some p =>
-      simp only [hl] at h
-      exact visit_asrep_eq_satRepB w v p (h.elim Or.inl (fun h => Or.inr h.1))
+    | some p => exact visit_asrep_eq_satRepB w v p
     | none =>
       cases ha : s.addl with
       | none => rfl
-      | some a =>
-        simp only [hl, ha] at h
-        simp only [visit_asrep_eq_satRepB w v a (h.elim Or.inl (fun h => Or.inr h.1))]
+      | some a => simp only [visit_asrep_eq_satRepB w v a]
 end
-
 
 theorem woViol_of_not_declares : ∀ (ps : Props) (kvs : KVs), declaresWO ps = false → woViol ps kvs = false
   | .nil, _, _ => rfl
@@ -218,52 +191,6 @@ theorem visitKVs_plain_eq_asrep (w : Bool) : ∀ (kvs : KVs) (s : Sch),
         simp only [hl, ha] at h
         simp only [visit_plain_eq_asrep w v a h.1]
 end
-
-/-- an untouched value holds no write-only null either -/
-theorem woNullHere_of_not_declares : ∀ (ps : Props) (kvs : KVs), declaresWO ps = false → woNullHere ps kvs = false
-  | .nil, _, _ => rfl
-  | .cons k p r, kvs, h => by
-    simp only [declaresWO, Bool.or_eq_false_iff] at h
-    simp [woNullHere, h.1, woNullHere_of_not_declares r kvs h.2]
-
-mutual
-theorem woNullIn_of_untouched : ∀ (v : J) (s : Sch), woTouched v s = false → woNullIn v s = false
-  | .null, _, _ => rfl
-  | .bool _, _, _ => rfl
-  | .num _, _, _ => rfl
-  | .str _, _, _ => rfl
-  | .arr xs, s, h => by
-    simp only [woNullIn]
-    cases hi : s.items with
-    | none => rfl
-    | some it =>
-      simp only [woTouched, hi] at h
-      exact woNullItems_of_untouched xs it h
-  | .obj kvs, s, h => by
-    simp only [woTouched, Bool.or_eq_false_iff] at h
-    simp [woNullIn, woNullHere_of_not_declares _ kvs h.1, woNullKVs_of_untouched kvs s h.2]
-theorem woNullItems_of_untouched : ∀ (xs : JL) (it : Sch), woTouchedItems xs it = false → woNullItems xs it = false
-  | .nil, _, _ => rfl
-  | .cons x r, it, h => by
-    simp only [woTouchedItems, Bool.or_eq_false_iff] at h
-    simp [woNullItems, woNullIn_of_untouched x it h.1, woNullItems_of_untouched r it h.2]
-theorem woNullKVs_of_untouched : ∀ (kvs : KVs) (s : Sch), woTouchedKVs kvs s = false → woNullKVs kvs s = false
-  | .nil, _, _ => rfl
-  | .cons k v r, s, h => by
-    simp only [woTouchedKVs, Bool.or_eq_false_iff] at h
-    simp only [woNullKVs, woNullKVs_of_untouched r s h.2, Bool.or_false]
-    cases hl : s.props.lookup k with
-    | some p =>
-      simp only [hl] at h
-      exact woNullIn_of_untouched v p h.1
-    | none =>
-      cases ha : s.addl with
-      | none => rfl
-      | some a =>
-        simp only [hl, ha] at h
-        exact woNullIn_of_untouched v a h.1
-end
-
 
 /-! ### lists, selection -/
 
@@ -360,7 +287,7 @@ theorem checkHeader_iff (canon : String → String) (w : Bool) (hdrs : List (Str
       | val v =>
         simp only [hd] at h2
         have e1 := visit_plain_eq_asrep w v s h2
-        have e2 := visit_asrep_eq_satRepB w v s (Or.inr (woNullIn_of_untouched v s h2))
+        have e2 := visit_asrep_eq_satRepB w v s
         have e3 := satRepB_iff w v s
         simp only [Option.isSome_some, if_true, specValue, Option.some.injEq, forall_eq', exists_eq_left']
         rw [e1, e2]
@@ -368,9 +295,7 @@ theorem checkHeader_iff (canon : String → String) (w : Bool) (hdrs : List (Str
         · simp [← e3, hb]
         · simp [← e3, hb]
 
-theorem checkBody_iff (o : Opts) (i : Input) (r : Resp) (he : o.excludeBody = false)
-    (hx : o.woOff = true ∨ ∀ mt s v, firstSome r.content (mimeCandidates (ctOf i)) = some mt →
-            mt.schema = some s → i.bodyDec = .val v → woNullIn v s = false) :
+theorem checkBody_iff (o : Opts) (i : Input) (r : Resp) (he : o.excludeBody = false) :
     (checkBody o i r).err = none ↔ BodyOK o i r := by
   unfold checkBody BodyOK
   simp only [he, Bool.false_eq_true, if_false]
@@ -379,7 +304,6 @@ theorem checkBody_iff (o : Opts) (i : Input) (r : Resp) (he : o.excludeBody = fa
   | cons c cs =>
     simp only [List.isEmpty_cons, Bool.false_eq_true, if_false, reduceCtorEq, false_or]
     rw [contentGet_eq_firstSome]
-    rw [hc] at hx
     cases hg : firstSome (c :: cs) (mimeCandidates (ctOf i)) with
     | none => simp
     | some mt =>
@@ -396,8 +320,7 @@ theorem checkBody_iff (o : Opts) (i : Input) (r : Resp) (he : o.excludeBody = fa
           | err => simp
           | nil => simp
           | val v =>
-            have hw : o.woOff = true ∨ woNullIn v s = false := hx.elim Or.inl (fun h => Or.inr (h mt s v hg hs hd))
-            have e2 := visit_asrep_eq_satRepB o.woOff v s hw
+            have e2 := visit_asrep_eq_satRepB o.woOff v s
             have e3 := satRepB_iff o.woOff v s
             simp only [Dec.val.injEq, exists_eq_left']
             rw [e2]
